@@ -929,6 +929,13 @@ class TemplateModel(object):
         assert cols is not None
         template_w, channel_ids = data[template_id], cols[template_id]
 
+        # Remove unused channels = -1 (the all-ones value when the table is unsigned).
+        # NOTE: this comes first, so that what an unused column holds does not enter the
+        # signal test below.
+        used = channel_ids != np.array(-1).astype(channel_ids.dtype)
+        template_w = template_w[:, used]
+        channel_ids = channel_ids[used]
+
         # KS2 HACK: dense templates may have been saved as sparse arrays (with all channels),
         # we need to remove channels with no signal.
 
@@ -937,11 +944,6 @@ class TemplateModel(object):
         has_signal = template_max > template_max.max() * 1e-6
         channel_ids = channel_ids[has_signal]
         template_w = template_w[:, has_signal]
-
-        # Remove unused channels = -1.
-        used = channel_ids != -1
-        template_w = template_w[:, used]
-        channel_ids = channel_ids[used]
         channel_ids = channel_ids.astype(np.uint32)
 
         # Unwhiten.
